@@ -1362,7 +1362,7 @@ def evaluate__from_datetime_functions(self: XPathFunction, context: ta.ContextTy
     elif self.symbol.startswith('minute'):
         return item.minute
     elif item.microsecond:
-        return Decimal('{}.{}'.format(item.second, item.microsecond))
+        return item.second + item.microsecond / Decimal('1000000.0')
     else:
         return item.second
 
